@@ -144,7 +144,32 @@ def run_obligation(ob, workroot, keep=False):
     res['encoding'] = {'instances': info['instances'], 'ir_lines': info['ir_lines'],
                        'primitives': info['primitives'], 'warnings': info['warnings']}
     cmd = cbmc_cmd(ob, cfile)
+    # fail-closed guard (DESIGN 2.2): a dereference that CBMC resolves to its integer-address memory would be a
+    # silently lost access; symbolic execution only (no solving), run concurrently with the real query
+    guard = cf.ThreadPoolExecutor(max_workers=1)
+    gfut = guard.submit(sh, [c for c in cmd if c != '--json-ui'] + ['--program-only'], ob.get('timeout', 600), ob.get('mem_gb', 12))
     rc, out, err, wall = sh(cmd, timeout=ob.get('timeout', 600), mem_gb=ob.get('mem_gb', 12))
+    grc, gout, gerr, gwall = gfut.result()
+    guard.shutdown()
+    nlost = 0; nalt = 0
+    for ln in gout.split('\n'):
+        k = len(re.findall(r'__CPROVER_memory(?!_leak)', ln))
+        if not k:
+            continue
+        # a dereference whose case split still lists real objects besides the integer-address fallback (legal when a
+        # guarded sentinel such as (void *)-1 is in the points-to set) vs one that resolves to the fallback alone
+        if '__CPROVER_POINTER_OBJECT(&' in ln or re.search(r'== &[A-Za-z_]', ln):
+            nalt += k
+        else:
+            nlost += k
+    res['pointsto_guard'] = {'integer_address_only_accesses': nlost, 'accesses_with_fallback_branch': nalt, 'symex_s': round(gwall, 1)}
+    if nalt and not ob.get('intaddr_ok'):
+        nlost += nalt
+    if grc == -9 or nlost:
+        res['verdict'] = 'inconclusive'
+        res['reason'] = ('points-to guard: %d dereference(s) fell back to integer-address memory' % nlost) if nlost else 'points-to guard timed out'
+        res['wall_s'] = time.time() - t0
+        return res
     res['cbmc_wall_s'] = round(wall, 2)
     if rc == -9:
         res['verdict'] = 'inconclusive'; res['reason'] = 'cbmc timeout after %ds' % ob.get('timeout', 600)
@@ -153,7 +178,8 @@ def run_obligation(ob, workroot, keep=False):
     parsed, perr = parse_cbmc_json(out)
     if parsed is None or parsed['results'] is None:
         res['verdict'] = 'inconclusive'
-        res['reason'] = 'cbmc gave no result (rc=%d): %s %s' % (rc, perr or '', (out[-1500:] + err[-500:]))
+        errs = ' | '.join(re.findall(r'"messageText": "([^"]*)",\s*"messageType": "ERROR"', out))
+        res['reason'] = 'cbmc gave no result (rc=%d): %s %s' % (rc, perr or '', errs or (out[-600:] + err[-300:]))
         res['wall_s'] = time.time() - t0
         return res
     for m in parsed['messages']:
